@@ -12,6 +12,8 @@ def run(ctx):
     s = ctx['seed'] + 6
     return run_parts(ctx, [
         Part('filter_candset', 'corr_matcher', 'run_candset', [s, 200 if q else 3000]),
+        Part('filter_wrapper_code', 'corr_filterwrappergen', 'run', [s, 100 if q else 2000], count_exceptions=False),
+        Part('matcher_code', 'corr_matchergen', 'run', [s, 150 if q else 3000], count_exceptions=False),
         Part('filter_pair', 'corr_filters', 'run_pairs', [s, 300 if q else 6000],
              specs={'fp_overlap_exact_spec'}),
         Part('filter_pair_code', 'corr_pairgen', 'run', [s, 100 if q else 2000], count_exceptions=False),
